@@ -218,6 +218,9 @@ class CompoundQuery(qcore.Query):
 
         if len(subs) == 1:
             m = subs[0].matcher(searcher, context)
+            # A compound around a single subquery still applies its own boost
+            if self.boost != 1.0:
+                m = matching.WrappingMatcher(m, self.boost)
         else:
             m = self._matcher(subs, searcher, context)
         return m
